@@ -18,7 +18,35 @@ FMODE = st.one_of(NONE, NONE, st.sampled_from([0o100444, 0o100644, 0o100755, 0o1
 DMODE = st.one_of(NONE, NONE, st.sampled_from([0o040555, 0o040755, 0o040700, 0o041777]))
 
 
+# descriptor fields of new() that most images leave at their defaults: volume set size / sequence number (disc M of N),
+# identifier strings (some at their field's full width), an expiry date, application-use bytes
+VD_EXTRAS = st.one_of(
+    st.just({}), st.just({}), st.just({}),
+    st.fixed_dictionaries({'set_size': st.sampled_from([2, 3, 5, 1000]), 'seqnum': st.sampled_from([1, 2, 3])}),
+    st.fixed_dictionaries({'sys_ident': st.sampled_from(['LINUX', 'S' * 32]), 'vol_ident': st.sampled_from(['CDROM', 'V' * 32, 'MY_VOLUME']),
+                           'vol_set_ident': st.sampled_from(['SET', 'T' * 128]), 'pub_ident_str': st.sampled_from(['', 'PUBLISHER', 'P' * 128]),
+                           'preparer_ident_str': st.sampled_from(['', 'PREP', 'R' * 128]), 'app_ident_str': st.sampled_from(['', 'APP', 'A' * 128]),
+                           'copyright_file': st.sampled_from(['', 'COPY.TXT;1']), 'abstract_file': st.sampled_from(['', 'ABS.TXT;1']),
+                           'bibli_file': st.sampled_from(['', 'BIB.TXT;1']), 'vol_expire_date': st.sampled_from([None, 1893456000.0, 4102444799.0]),
+                           'app_use': st.sampled_from(['', 'application use', 'u' * 100]),
+                           'set_size': st.sampled_from([1, 2]), 'seqnum': st.sampled_from([1, 1, 2])}),
+)
+
+
 def cfg_st(level=None, joliet=None, rr=None, udf=None, xa=None, ac=None):
+    def merge(base, extra):
+        out = dict(base)
+        for k, v in extra.items():
+            if v in ('', None) or (k == 'seqnum' and v > extra.get('set_size', 1)):
+                continue
+            if base.get('joliet') and k in ('vol_set_ident', 'pub_ident_str', 'preparer_ident_str', 'app_ident_str') and isinstance(v, str):
+                v = v[:64]          # the Joliet descriptor holds these as UCS-2: half as many characters (new() refuses more)
+            out[k] = v
+        return out
+    return st.builds(merge, _cfg_base(level, joliet, rr, udf, xa, ac), VD_EXTRAS)
+
+
+def _cfg_base(level=None, joliet=None, rr=None, udf=None, xa=None, ac=None):
     return st.fixed_dictionaries({
         'level': st.sampled_from([1, 2, 3, 4]) if level is None else level,
         'joliet': st.sampled_from([None, 1, 2, 3, 3]) if joliet is None else joliet,
@@ -432,7 +460,7 @@ def readd(cfg=None, reopen_ok=False):
     duplicate checks - sees a name that existed, was removed and exists again."""
     c = cfg if cfg is not None else cfg_st()
 
-    def build(depth, dirs, files, with_files, mid, tail, twice):
+    def build(depth, dirs, files, with_files, mid, tail, twice, look=(0, 0, 1)):
         ops = []
         for k in range(depth):
             ops.append(dict(dirs[k], d=(0 if k == 0 else -1), reuse=0, ns=7))
@@ -441,6 +469,9 @@ def readd(cfg=None, reopen_ok=False):
             for f in files[:2]:
                 ops.append(dict(f, d=-1, reuse=0))
                 nfiles += 1
+        if look[0]:
+            # address an entry by its Rock Ridge path (where there is one) before it goes away ...
+            ops.append({'k': 'hide', 'i': look[1], 'via': 1, 'on': 1})
         ops += mid
         ops += [{'k': 'rm_file', 'b': 0, 'j': 0}] * nfiles
         ops += [{'k': 'rm_dir', 'd': 0, 'ns': 7}] * depth
@@ -448,8 +479,15 @@ def readd(cfg=None, reopen_ok=False):
             for k in range(depth):
                 # the pool of directory names holds the `depth` fresh draws in creation order: index k is the k-th of the chain
                 ops.append(dict(dirs[k], d=(0 if k == 0 else -1), reuse=(k if k else depth), ns=7))
+            if with_files:
+                for j in range(nfiles):
+                    ops.append(dict(files[j], d=-1, reuse=(j if j else nfiles)))       # the files come back under their names as well
             if rnd == 0 and twice:
+                ops += [{'k': 'rm_file', 'b': 0, 'j': 0}] * nfiles
                 ops += [{'k': 'rm_dir', 'd': 0, 'ns': 7}] * depth
+        if look[0]:
+            # ... and again once it is back
+            ops.append({'k': 'hide', 'i': look[1], 'via': 1, 'on': look[2]})
         return ops + tail
     D = add_dir(rsz=st.integers(0, 2), sz=st.integers(0, 2))
     F = add_fp(length=SMALL_LEN, file=st.just(False))
@@ -459,7 +497,8 @@ def readd(cfg=None, reopen_ok=False):
         mid_choices.append(reopen)
         tail_choices.append(reopen)
     return program(c, st.builds(build, st.sampled_from([2, 2, 3]), st.lists(D, min_size=3, max_size=3), st.lists(F, min_size=2, max_size=2), st.booleans(),
-                                st.lists(st.one_of(*mid_choices), min_size=0, max_size=2), st.lists(st.one_of(*tail_choices), min_size=1, max_size=8), st.booleans()))
+                                st.lists(st.one_of(*mid_choices), min_size=0, max_size=2), st.lists(st.one_of(*tail_choices), min_size=1, max_size=8), st.booleans(),
+                                st.tuples(st.integers(0, 1), st.integers(0, 4), st.integers(0, 1))))
 
 
 def symcomps(cfg=None, reopen_ok=False):
